@@ -14,6 +14,11 @@ use crate::simkit::runner::{Property, RunCtx, RunReport, Tier};
 use crate::simkit::tape::{fnv, Src};
 use bytes::Bytes;
 use redis_sim::production::{ShardConfig, ShardedActorState};
+use crate::model::wire::{decode_all, encode_cmd};
+use crate::props::c04::{dump_prod, gen_stream_cmds, new_state};
+use crate::simkit::rt::{Sched, Step};
+use crate::simkit::stream::StreamHandle;
+use redis_sim::production::{verif_hooks, ConnectionConfig};
 use serde_json::json;
 use std::collections::BTreeMap;
 
@@ -88,6 +93,109 @@ pub async fn dump(state: &ShardedActorState<SimClock>) -> BTreeMap<Vec<u8>, Stri
     out
 }
 
+/// Send `group` to a handler in one read and step until every reply of the group has arrived.
+async fn exchange(sched: &mut Sched<'_>, src: &mut Src, stream: &StreamHandle, group: &[Cmd], have: &mut usize) -> Option<Vec<R>> {
+    let mut bytes = Vec::new();
+    for c in group { bytes.extend_from_slice(&encode_cmd(c)); }
+    stream.deliver(&bytes);
+    for _ in 0..20_000 {
+        let (reps, _, err) = decode_all(&stream.out());
+        if err.is_some() { return None; }
+        if reps.len() >= *have + group.len() { let out = reps[*have..*have + group.len()].to_vec(); *have += group.len(); return Some(out); }
+        if let Step::Idle = sched.step(src, 0).await { return None; }
+    }
+    None
+}
+
+impl C03 {
+    /// Connection-level twin: the same command stream (with MULTI/EXEC blocks) goes through the
+    /// production connection handler in front of a 1-shard and an N-shard server.
+    fn run_conn(&self, src: &mut Src, ctx: &RunCtx, n: usize) -> RunReport {
+        let mut rep = RunReport::default();
+        rep.probe("connection_level_run");
+        let mut cmds = gen_stream_cmds(src);
+        for c in cmds.iter_mut() {
+            let nm = String::from_utf8_lossy(&c[0]).to_uppercase();
+            if (nm == "SPOP" || nm == "SRANDMEMBER") && c.len() >= 2 { *c = vec![b"SCARD".to_vec(), c[1].clone()]; }
+        }
+        let depth = 1 + src.below(4) as usize;
+        let cfg = ConnectionConfig { max_buffer_size: 1 << 20, read_buffer_size: *src.pick(&[8192usize, 16, 64]), min_pipeline_buffer: *src.pick(&[60usize, 0, 15]), batch_threshold: *src.pick(&[2usize, 1, 3]) };
+        let advs: Vec<u64> = (0..cmds.len()).map(|_| if src.chance(1, 5) { [1u64, 999, 1000, 1500, 10_000, 100_000][src.idx(6)] } else { 0 }).collect();
+        let seed = src.u64_any();
+        let trace = ctx.trace;
+        let mut in_multi = false;
+        for c in &cmds {
+            let nm = String::from_utf8_lossy(&c[0]).to_uppercase();
+            if nm == "MULTI" { in_multi = true; }
+            if nm == "EXEC" && in_multi { rep.probe("transaction_replayed_on_n_shards"); in_multi = false; }
+            if nm == "DISCARD" { in_multi = false; }
+            if matches!(nm.as_str(), "MGET" | "MSET" | "MSETNX" | "DEL" | "EXISTS" | "RPOPLPUSH" | "LMOVE" | "RENAME" | "RENAMENX") && c.len() > 2 { rep.probe("multikey_cmd"); }
+        }
+        let cmds2 = cmds.clone();
+        let (viol, log): (Option<(String, String)>, Vec<String>) = rt::block_on(seed, async move {
+            let clock = SimClock::new(1_700_000_000_000);
+            clock.publish();
+            let a = new_state(1);
+            let b = new_state(n);
+            let (sa, sb) = (StreamHandle::new(), StreamHandle::new());
+            let mut sched = Sched::new();
+            sched.add("handler-1-shard", verif_hooks::connection(sa.server_end(), a.clone(), cfg.clone()));
+            sched.add("handler-n-shards", verif_hooks::connection(sb.server_end(), b.clone(), cfg.clone()));
+            let mut log = Vec::new();
+            let (mut ha, mut hb) = (0usize, 0usize);
+            let mut two_key_seen = false;
+            let mut i = 0usize;
+            let mut res: Option<(String, String)> = None;
+            'outer: for group in cmds2.chunks(depth) {
+                let adv: u64 = advs[i..i + group.len()].iter().sum();
+                if adv > 0 { clock.advance(adv); clock.publish(); if trace { log.push(format!("clock +{} ms", adv)); } }
+                let ra = exchange(&mut sched, src, &sa, group, &mut ha).await;
+                let rb = exchange(&mut sched, src, &sb, group, &mut hb).await;
+                let (Some(ra), Some(rb)) = (ra, rb) else {
+                    res = Some(("C03/connection/no-reply".to_string(), format!("commands #{}.. ({}): a handler did not answer the whole group", i, show_cmd(&group[0]))));
+                    break 'outer;
+                };
+                for (j, c) in group.iter().enumerate() {
+                    let nm = String::from_utf8_lossy(&c[0]).to_uppercase();
+                    if trace { log.push(format!("#{} {}   1-shard -> {}   {}-shard -> {}", i + j, show_cmd(c), ra[j].show(), n, rb[j].show())); }
+                    if matches!(nm.as_str(), "RPOPLPUSH" | "LMOVE" | "RENAME" | "RENAMENX" | "MSETNX") && c.len() > 2 && c[1..].iter().any(|x| x != &c[1]) { two_key_seen = true; }
+                    let (na, nb) = (norm_unordered(&nm, &ra[j]), norm_unordered(&nm, &rb[j]));
+                    if na != nb {
+                        let key = if two_key_seen { "C03/two-key-command-runs-on-first-keys-shard".to_string() }
+                            else if nm == "SCAN" { "C03/reply-differs/scan-count-per-shard".to_string() }
+                            else if nm == "EXEC" { "C03/connection/exec-reply-differs".to_string() }
+                            else { format!("C03/connection/reply-differs/{}", nm.to_lowercase()) };
+                        res = Some((key, format!("connection level, command #{} {}: 1 shard replied {} but {} shards replied {}", i + j, show_cmd(c), ra[j].show(), n, rb[j].show())));
+                        break 'outer;
+                    }
+                }
+                i += group.len();
+            }
+            if res.is_none() {
+                let (da, db) = (dump_prod(&a).await, dump_prod(&b).await);
+                if da != db {
+                    let k = da.keys().chain(db.keys()).find(|k| da.get(*k) != db.get(*k)).cloned().unwrap_or_default();
+                    let key = if two_key_seen { "C03/two-key-command-runs-on-first-keys-shard" } else { "C03/connection/final-keyspace-differs" };
+                    res = Some((key.to_string(), format!("connection level, after {} commands key {:?}: 1 shard has {:?}, {} shards have {:?}", cmds2.len(), String::from_utf8_lossy(&k), da.get(&k), n, db.get(&k))));
+                }
+            }
+            sa.close(); sb.close();
+            for _ in 0..20 { if sched.is_done(0) && sched.is_done(1) { break; } let _ = sched.step(src, 0).await; }
+            verif_hooks::clock::clear();
+            (res, log)
+        });
+        rep.trace = log;
+        if let Some((k, m)) = viol { rep.violate(k, m); }
+        rep.evals = cmds.len() as u64 + 1;
+        rep.nontrivial = rep.probes.contains_key("transaction_replayed_on_n_shards") || rep.probes.contains_key("multikey_cmd");
+        let mut fp = fnv(0xc0, &[n as u8, depth as u8]);
+        for c in &cmds { for a in c { fp = fnv(fp, a); fp = fnv(fp, &[0]); } }
+        rep.fingerprint = fp;
+        rep.sample = Some(json!({"connection_level": true, "shards": n, "pipeline_depth": depth, "commands": cmds.iter().take(14).map(|c| show_cmd(c)).collect::<Vec<_>>() }));
+        rep
+    }
+}
+
 impl Property for C03 {
     fn id(&self) -> &'static str { "C03" }
     fn level(&self) -> &'static str { "exploration" }
@@ -95,14 +203,15 @@ impl Property for C03 {
         "swarm-configured command sequences (strings, counters, keys/expiry, lists, sets, hashes, sorted sets, SCAN family, multi-key and two-key commands, FLUSHDB; <= 40 commands, 1-6 keys incl. odd names) sent to a 1-shard and an N-shard (2,3,4,8,16) real ShardedActorState under one simulated clock; entry path of each plain GET/SET drawn independently per twin; clock advances between commands. Non-trivial = some key was touched through >= 2 different entry paths, or a multi-key command spanned >= 2 shards; distinct = (commands, paths, shard count)"
     }
     fn components_real(&self) -> Vec<&'static str> { vec!["production::ShardedActorState<T>::{execute,fast_get,fast_set,pooled_fast_get,pooled_fast_set,fast_batch_get_pipeline,fast_batch_set_pipeline}", "ShardActor tasks and their CommandExecutors", "Command::from_resp_zero_copy (production parser)", "hash_key / hash_key_bytes routing, MGET/MSET/DEL/EXISTS/KEYS/SCAN/DBSIZE/FLUSH fan-out"] }
-    fn components_stubbed(&self) -> Vec<&'static str> { vec!["no TCP: commands enter through the ShardedActorState API (the connection-level twin is part of C04)", "TimeSource -> SimClock"] }
+    fn components_stubbed(&self) -> Vec<&'static str> { vec!["four runs in five enter through the ShardedActorState API; every fifth through the production connection handler (hook H1) on a SimStream, with MULTI/EXEC blocks", "TimeSource -> SimClock (API level) / ProductionTimeSource behind hook H2 (connection level)"] }
     fn assumptions(&self) -> Vec<&'static str> { vec!["SPOP/SRANDMEMBER are excluded (their choice is legitimately random)", "replies of unordered commands are compared as multisets; SCAN-family replies by their item sets"] }
-    fn required_probes(&self) -> Vec<&'static str> { vec!["key_via_two_paths", "multikey_cmd"] }
+    fn required_probes(&self) -> Vec<&'static str> { vec!["key_via_two_paths", "multikey_cmd", "connection_level_run", "transaction_replayed_on_n_shards"] }
     fn runs(&self, tier: Tier) -> u64 { match tier { Tier::Quick => 150000, Tier::Thorough => 3000000 } }
 
     fn run(&self, src: &mut Src, ctx: &RunCtx) -> RunReport {
         let mut rep = RunReport::default();
         let n = *src.pick(&[16usize, 2, 3, 4, 8]);
+        if src.below(5) == 0 { return self.run_conn(src, ctx, n); }
         let mut g = GenCfg::swarm(src, ALL_FAMS, 6);
         let fams = g.fams.clone();
         let cmds: Vec<(Cmd, Path, Path, u64)> = src.list(40, 19, 20, |s| {
